@@ -9,7 +9,8 @@ Bounded exhaustive enumeration (vp.cfgx), three families, all executed on the re
   presence  all 2^3 x 2^4 presence patterns of the three mode keys and the four detector keys, as a YAML document
             and as a Configuration object: accepted iff exactly one of each.
   range     table of validated physical quantities x boundary values {low-d, low, low+d, mid, high-d, high, high+d, 0}
-            x paths {constructor, YAML, attribute setter, Processor.set, observation sweep} x detector types: every
+            x paths {constructor, YAML, attribute setter, Processor.set, observation sweep built in Python, observation
+            sweep written in YAML} x detector types: every
             path gives the table's verdict and an accepted value reads back equal.
 """
 from __future__ import annotations
@@ -269,7 +270,12 @@ def mode_desc(mode, pal, tmp):
         return doc, exp
     # calibration
     target = os.path.join(tmp, "target.npy")
-    np.save(target, np.zeros((ROWS, COLS)) + s)
+    fit = [0, ROWS, 0, COLS]
+    if pal == "readout":        # explicit readout times => time-domain simulation => 3-D target and 6 range values
+        np.save(target, np.zeros((1, ROWS, COLS)) + s)
+        fit = [0, 1, 0, ROWS, 0, COLS]
+    else:
+        np.save(target, np.zeros((ROWS, COLS)) + s)
     k1 = "pipeline.photon_collection.mark1.arguments.a"
     kv = "pipeline.photon_collection.mark1.arguments.v"
     if pal == "vector-parameter":
@@ -277,7 +283,7 @@ def mode_desc(mode, pal, tmp):
                   {"key": kv, "values": ["_", "_"], "boundaries": [[0.0, 1.0], [2.0, 3.0]], "logarithmic": False}]
     else:
         params = [{"key": k1, "values": "_", "boundaries": [0.5, 10.0 + s], "logarithmic": False}]
-    doc = {"result_type": "pixel", "result_fit_range": [0, ROWS, 0, COLS], "target_fit_range": [0, ROWS, 0, COLS],
+    doc = {"result_type": "pixel", "result_fit_range": list(fit), "target_fit_range": list(fit),
            "target_data_path": [target],
            "fitness_function": {"func": "pyxel.calibration.fitness.sum_of_abs_residuals"},
            "algorithm": {"type": "sade", "generations": 1, "population_size": 8},
@@ -286,7 +292,7 @@ def mode_desc(mode, pal, tmp):
     if pal == "readout":
         doc["readout"] = {"times": 2.0}
         doc["pipeline_seed"] = 11
-    exp = {"result_type": "pixel", "result_fit_range": [0, ROWS, 0, COLS], "target_fit_range": [0, ROWS, 0, COLS],
+    exp = {"result_type": "pixel", "result_fit_range": list(fit), "target_fit_range": list(fit),
            "target_data_path": [target], "fitness_function": "pyxel.calibration.fitness.sum_of_abs_residuals",
            "algorithm": {"type": "sade", "generations": 1, "population_size": 8},
            "pygmo_seed": 7 + s, "num_islands": 1, "num_evolutions": 1, "topology": "unconnected",
@@ -545,16 +551,27 @@ def run_doc(case):
                 f"{str(e)[:200]}")
             pdet = None
         nruns = 0
+        both_failed = None
         if case.get("run") and cfg is not None and pdet is not None and not viol:
             r1 = r2 = None
+            e1 = e2 = None
             try:
                 r1, t1 = _run(cfg.running_mode, cfg.detector, cfg.pipeline, mode)
             except Exception as e:  # noqa: BLE001
-                bad("run-failed", "yaml", f"run_mode on the loaded objects raised {type(e).__name__}: {str(e)[:300]}")
+                e1 = f"{type(e).__name__}: {str(e)[:300]}"
             try:
                 r2, t2 = _run(pmode, pdet, ppipe, mode)
             except Exception as e:  # noqa: BLE001
-                bad("run-failed", "python", f"run_mode on the Python-built objects raised {type(e).__name__}: {str(e)[:300]}")
+                e2 = f"{type(e).__name__}: {str(e)[:300]}"
+            if (e1 is None) != (e2 is None):
+                # the property is relational: the two constructions must behave alike (a run that fails on both
+                # alike is the business of the property that owns the failing feature)
+                bad("run-differs", "exception", f"run_mode on the YAML-loaded objects: {e1 or 'completed'}; on the "
+                    f"Python-built objects: {e2 or 'completed'}")
+            elif e1 is not None and _strip_tmp(e1) != _strip_tmp(e2):
+                bad("run-differs", "exception", f"both runs fail, differently: yaml {e1} / python {e2}")
+            elif e1 is not None:
+                both_failed = e1
             if r1 is not None and r2 is not None:
                 nruns = len(t1)
                 d = diff(r2, r1)
@@ -576,13 +593,15 @@ def run_doc(case):
             pass
         shutil.rmtree(tmp, ignore_errors=True)
     return {"viol": viol, "sig": cfgx.sig(_strip_tmp(expected)), "nontrivial": accepted, "n": 1 + (2 if nruns else 0),
-            "counts": {"doc_runs_compared": 1 if nruns else 0},
+            "counts": {"doc_runs_compared": 1 if nruns else 0, "doc_runs_failing_alike": 1 if both_failed else 0},
+            "sets": {"runs_failing_alike": [f"{mode}/{mpal}: {_strip_tmp(both_failed)[1:-1][:120]}"] if both_failed else []},
             "outcome": {"accepted": accepted, "model_calls_per_run": nruns, "violations": len(viol)}}
 
 
 def _strip_tmp(obj):
-    txt = json.dumps(obj, default=str, sort_keys=True)
     import re
+
+    txt = json.dumps(obj, default=str, sort_keys=True)
 
     return re.sub(r"/tmp/vp_[A-Za-z0-9_]+", "<tmp>", txt)
 
@@ -675,7 +694,7 @@ TABLE = [
     ("characteristics", "adc_voltage_range", "len", 2, True, True, 1, True, ALL),
     ("characteristics", "avalanche_gain", 1.0, 1000.0, True, True, 0.5, False, APD),
 ]
-PATHS = ["ctor", "yaml", "setter", "procset", "sweep"]
+PATHS = ["ctor", "yaml", "setter", "procset", "sweep", "yaml-sweep"]
 
 
 def table_values(row):
@@ -764,6 +783,18 @@ def run_range(case):
                 proc = Processor(detector=det, pipeline=build_pipeline({}))
                 proc.set(f"detector.{sec}.{field}", value)
                 got = _get(getattr(proc.detector, sec), field)
+            elif path == "yaml-sweep":
+                d = {"observation": {"mode": "sequential",
+                                     "parameters": [{"key": f"detector.{sec}.{field}", "values": [base[sec][field], value]}]},
+                     f"{kind}_detector": base,
+                     "pipeline": {"photon_collection": [{"name": "seen", "func": SEEN,
+                                                         "arguments": {"section": sec, "field": field}}]}}
+                cfg = pyxel.loads(yaml_text(d))
+                del TRACE[:]
+                pyxel.run_mode(cfg.running_mode, cfg.detector, cfg.pipeline)
+                if len(TRACE) != 2:
+                    raise RuntimeError(f"sweep executed {len(TRACE)} runs instead of 2")
+                got = TRACE[1]["value"]
             else:
                 det = build_detector(kind, base["geometry"], base["environment"], base["characteristics"])
                 pipe = build_pipeline({"photon_collection": [{"name": "seen", "func": SEEN,
@@ -809,10 +840,10 @@ def enumerate_cases(tier, seed):
         for dpal in DET_PALETTES:
             for mode in MODE_KEYS:
                 for mpal in MODE_PALETTES[mode]:
-                    if mode == "calibration":
-                        run = thorough or (dpal == "full" and mpal == "one-parameter")
+                    if mode == "calibration":         # a calibration run costs ~0.5 s per construction
+                        run = thorough or dpal == "full" or (dpal == "min" and mpal == "one-parameter")
                     else:
-                        run = thorough or dpal in ("full", "min") or mpal in ("list", "product-lists")
+                        run = True
                     cases.append({"part": "doc", "det": kind, "detpal": dpal, "mode": mode, "modepal": mpal, "run": run})
     # presence
     for ms in cfgx.subsets(MODE_KEYS):
